@@ -3,13 +3,16 @@
    per unit, the incoming RTP packets, the delivered payload, the RTP packets handed to writeRTSP and
    what the format's real rtpDecoder returns for each of them.
 
-   mismatch  : H.264 only (fmt = 0) — the glue model + rtph264 encoder model must produce exactly the
-               observed packets, and the rtph264 decoder model exactly the observed decoder results.
-   spec_fail : every format — the property on the observed values only. *)
+   mismatch  : the modelled formats - H.264 (fmt 0), H.265 (1), Opus (8), G.711 (13), LPCM (14): the glue model +
+               the packetizer model must produce exactly the observed packets (or the observed error / panic),
+               and the decoder model exactly the observed decoder results.
+   spec_fail : every format — the property on the observed values only.
+   CConf     : which udpMaxPayloadSize values the real conf.Load accepts. *)
 From Coq Require Import List ZArith Bool.
 From Coq Require Export Uint63.
 Require Import MTX.Lib.IntWrap.
 Require Export MTX.Model.C23_RtpH264 MTX.Model.C23_RtpGlue.
+Require Export MTX.Model.C23_RtpH265 MTX.Model.C23_RtpAudio MTX.Model.C23_RtpGlueInst.
 Import ListNotations.
 Local Open Scope Z_scope.
 
@@ -38,7 +41,11 @@ Inductive step := Step (pts : Z) (inp : list packet) (decerr : bool) (deliv : op
    is their concatenation (G711, LPCM). init = (ssrc, initial sequence number, rtpTimeOffset) when the encoder
    is created by initialize (non-RTP publisher). *)
 Inductive case :=
-| CScen (fmt max : Z) (avail bytejoin : bool) (init : option (Z * Z * Z)) (steps : list step).
+| CScen (fmt max : Z) (avail bytejoin : bool) (init : option (Z * Z * Z)) (steps : list step)
+(* the same with the parameters of rtplpcm: bit depth and channel count (0 0 for the other formats) *)
+| CScenP (bits chans : Z) (fmt max : Z) (avail bytejoin : bool) (init : option (Z * Z * Z)) (steps : list step)
+(* conf.Load on "udpMaxPayloadSize: u": accepted? *)
+| CConf (probes : list (Z * bool)).
 
 (* ---- equality ---- *)
 Fixpoint bytes_eqb (a b : bytes) : bool :=
@@ -112,10 +119,83 @@ Definition init_g (max : Z) (init : option (Z * Z * Z)) : gstate :=
   | None => mkg None 0
   end.
 
+(* ---- running the other models: generic in the glue instance and the decoder ---- *)
+Definition pobs_eqb (a b : pobs) : bool :=
+  match a, b with
+  | POk x, POk y => list_eqb bytes_eqb x y
+  | PMore, PMore => true
+  | PErr, PErr => true
+  | _, _ => false
+  end.
+
+Section Agree.
+  Variable gw : gstate -> Z -> list packet -> bool -> option (list bytes) -> gout.
+  Variable D : Type.
+  Variable dstep : D -> packet -> D * pobs.
+
+  Fixpoint dec_agree_g (d : D) (pkts : list packet) (obs : list pobs) : bool * D :=
+    match pkts, obs with
+    | [], [] => (true, d)
+    | p :: pr, o :: or =>
+        let '(d1, m) := dstep d p in
+        if pobs_eqb m o then dec_agree_g d1 pr or else (false, d1)
+    | _, _ => (false, d)
+    end.
+
+  Fixpoint agree_g (g : gstate) (d : D) (steps : list step) : bool :=
+    match steps with
+    | [] => true
+    | Step pts inp decerr deliv _ r :: rest =>
+        match gw g pts inp decerr deliv, r with
+        | GPanic, SPanic => true
+        | GErr g', SErr => agree_g g' d rest
+        | GOk g' out, SOk out' obs =>
+            list_eqb pkt_eqb out out' &&
+            match g'.(g_enc) with
+            | Some _ => let '(ok, d1) := dec_agree_g d out' obs in ok && agree_g g' d1 rest
+            | None => agree_g g' d rest
+            end
+        | _, _ => false
+        end
+    end.
+End Agree.
+
+(* rtpDecoderH265.decode: ErrMorePacketsNeeded / ErrNonStartingPacketAndNoPrevious -> (nil, nil); an access unit
+   without NAL units is a nil payload *)
+Definition pobs_of5 (o : dout) : pobs :=
+  match o with
+  | DOk [] => PMore
+  | DOk au => POk au
+  | DMore | DNoPrev => PMore
+  | DErr | DAnnexB => PErr
+  end.
+Definition pobs_simple (o : dout) : pobs := match o with DOk l => POk l | DErr => PErr | _ => PMore end.
+
+Definition h265_agree (max : Z) (avail : bool) (g : gstate) (steps : list step) : bool :=
+  agree_g (fun g pts inp de dl => h265_glue_write max avail g pts inp de dl) dec5
+          (fun d p => let '(d1, o) := decode5 d p in (d1, pobs_of5 o)) g dec5_init steps.
+Definition opus_agree (max : Z) (avail : bool) (g : gstate) (steps : list step) : bool :=
+  agree_g (fun g pts inp de dl => opus_glue_write max avail g pts inp de dl) unit
+          (fun d p => (d, pobs_simple (simple_decode p))) g tt steps.
+(* the delivered G.711 / LPCM payload is one byte string *)
+Definition lpcm_agree (ss max : Z) (avail : bool) (g : gstate) (steps : list step) : bool :=
+  agree_g (fun g pts inp de dl => lpcm_glue_write ss max avail g pts inp de (option_map (@concat Z) dl)) unit
+          (fun d p => (d, pobs_simple (simple_decode p))) g tt steps.
+
+Definition mismatch_scen (bits chans fmt max : Z) (avail : bool) (init : option (Z * Z * Z)) (steps : list step) : bool :=
+  if fmt =? 0 then negb (h264_agree max avail (init_g max init) (Some dec_init) steps)
+  else if fmt =? 1 then negb (h265_agree max avail (init_g max init) steps)
+  else if fmt =? 8 then negb (opus_agree max avail (init_g max init) steps)
+  else if (fmt =? 13) || (fmt =? 14)
+       then negb (lpcm_agree (lpcm_sample_size bits chans) max avail (init_g max init) steps)
+  else false.
+
 Definition mismatch (c : case) : bool :=
   match c with
   | CScen fmt max avail _ init steps =>
       if fmt =? 0 then negb (h264_agree max avail (init_g max init) (Some dec_init) steps) else false
+  | CScenP bits chans fmt max avail _ init steps => mismatch_scen bits chans fmt max avail init steps
+  | CConf _ => false
   end.
 
 (* ---- the property on the observed values only (no model function below this line) ---- *)
@@ -164,8 +244,23 @@ Definition total (au : list bytes) : Z := fold_right (fun n a => len n + a) 0 au
 Definition h264_guard (au : list bytes) : bool :=
   forallb nal_ok au && (Z.of_nat (length au) <=? 50) && (total au <=? 8388608).
 
+(* H.265 NAL units for which RFC 7798 packetisation is reversible by the gortsplib decoder: two-byte header, not
+   one of the RTP-only types 48..50, no start code 00 00 01 inside; at most 21 NAL units and 8 MiB *)
+Definition nal5_okb (n : bytes) : bool :=
+  match n with
+  | b0 :: _ :: _ => negb ((48 <=? (b0 / 2) mod 64) && ((b0 / 2) mod 64 <=? 50)) && no_startcode n
+  | _ => false
+  end.
+Definition h265_guard (au : list bytes) : bool :=
+  forallb nal5_okb au && (Z.of_nat (length au) <=? 21) && (total au <=? 8388608).
+
+(* the rtph265 encoder refuses ("invalid NALU") a NAL unit without its two-byte header inside an aggregation packet *)
+Definition h265_short (fmt : Z) (deliv : option (list bytes)) : bool :=
+  (fmt =? 1) && match deliv with Some p => existsb (fun n => len n <? 2) p | None => false end.
+
 Definition roundtrip_ok (fmt : Z) (bytejoin : bool) (p : list bytes) (obs : list pobs) : bool :=
   if (fmt =? 0) && negb (h264_guard p) then true
+  else if (fmt =? 1) && negb (h265_guard p) then true
   else match flatten_obs obs with
        | None => false
        | Some q => if bytejoin then bytes_eqb (concat q) (concat p) else list_eqb bytes_eqb q p
@@ -194,6 +289,7 @@ Definition spec_step (fmt max : Z) (avail bytejoin : bool) (st : option (Z * Z *
                        end in
             match st', r with
             | _, SPanic => None
+            | Some _, SErr => if h265_short fmt deliv then Some st' else None
             | _, SErr => None
             | None, SOk out _ =>
                 (* never re-encoded so far and nothing oversized: packets are forwarded untouched *)
@@ -225,9 +321,16 @@ Fixpoint spec_run (fmt max : Z) (avail bytejoin : bool) (st : option (Z * Z * Z)
       end
   end.
 
+(* a configuration the server accepts must leave every packetizer at least the room its fixed headers need:
+   udpMaxPayloadSize - 12 (RTP header) - 10 (SRTP tag when RTSP encryption is on) >= 4, the largest lower bound of
+   the modelled packetizers (H.264 3, H.265 4); below, the encoders divide by zero *)
+Definition conf_ok (pr : Z * bool) : bool := let '(u, accepted) := pr in negb accepted || (4 <=? u - 22).
+
 Definition spec_fail (c : case) : bool :=
   match c with
-  | CScen fmt max avail bytejoin init steps =>
+  | CScen fmt max avail bytejoin init steps
+  | CScenP _ _ fmt max avail bytejoin init steps =>
       spec_run fmt max avail bytejoin
                (match init with Some (ssrc, seq0, off) => Some (ssrc, seq0, off) | None => None end) steps
+  | CConf probes => negb (forallb conf_ok probes)
   end.
